@@ -61,6 +61,28 @@ type env struct {
 	entry  string
 	depth  int
 	thread string
+	// locks this function activation took itself and has not released, and those whose release it has deferred: a
+	// return with one of the former that is not among the latter leaves the lock held for good
+	own      map[string]bool
+	deferred map[string]bool
+}
+
+// leaks: lock -> example site of a return (or end of function) that leaves it held
+var leaks = map[string]string{}
+
+func (e *env) checkLeak(at token.Pos) {
+	for k := range e.own {
+		if _, held := e.held[k]; held && !e.deferred[k] {
+			pos := e.pkg.Fset.Position(at)
+			if _, seen := leaks[k]; !seen {
+				leaks[k] = fmt.Sprintf("%s@%s:%d", e.entry, relFile(pos.Filename), pos.Line)
+			}
+		}
+	}
+}
+
+func (e *env) fresh() {
+	e.own, e.deferred = map[string]bool{}, map[string]bool{}
 }
 
 func (e *env) clone() *env {
@@ -72,6 +94,13 @@ func (e *env) clone() *env {
 	n.paths = map[types.Object]string{}
 	for k, v := range e.paths {
 		n.paths[k] = v
+	}
+	n.own, n.deferred = map[string]bool{}, map[string]bool{}
+	for k := range e.own {
+		n.own[k] = true
+	}
+	for k := range e.deferred {
+		n.deferred[k] = true
 	}
 	return &n
 }
@@ -349,10 +378,17 @@ func (e *env) call(c *ast.CallExpr) {
 			switch sel.Sel.Name {
 			case "Lock":
 				e.held[lp] = "W"
+				if e.own != nil {
+					e.own[lp] = true
+				}
 			case "RLock":
 				e.held[lp] = "R"
+				if e.own != nil {
+					e.own[lp] = true
+				}
 			case "Unlock", "RUnlock":
 				delete(e.held, lp)
+				delete(e.own, lp)
 			}
 			return
 		}
@@ -498,7 +534,10 @@ func (e *env) callFuncValue(c *ast.CallExpr) {
 					i++
 				}
 			}
-			ne.block(lit.Body)
+			ne.fresh()
+			if !ne.block(lit.Body) {
+				ne.checkLeak(lit.Body.End())
+			}
 		}
 	}
 }
@@ -563,7 +602,10 @@ func (e *env) inline(fn *types.Func, recvPath string, c *ast.CallExpr) {
 	for k, v := range e.held {
 		ne.held[k] = v
 	}
-	ne.block(fd.Body)
+	ne.fresh()
+	if !ne.block(fd.Body) {
+		ne.checkLeak(fd.Body.End())
+	}
 	e.held = saved
 }
 
@@ -635,6 +677,7 @@ func (e *env) stmt(s ast.Stmt) bool {
 		for _, r := range v.Results {
 			e.expr(r)
 		}
+		e.checkLeak(v.Pos())
 		return true
 	case *ast.BlockStmt:
 		return e.block(v)
@@ -708,6 +751,13 @@ func (e *env) stmt(s ast.Stmt) bool {
 		}
 	case *ast.DeferStmt:
 		if sel, ok := v.Call.Fun.(*ast.SelectorExpr); ok && (sel.Sel.Name == "Unlock" || sel.Sel.Name == "RUnlock") {
+			if tv, ok := e.pkg.TypesInfo.Types[sel.X]; ok && isMutexType(tv.Type) && e.deferred != nil {
+				lp := e.pathOf(sel.X)
+				if lp == "" {
+					lp = "?" + types.ExprString(sel.X)
+				}
+				e.deferred[lp] = true
+			}
 			return false
 		}
 		e.clone().call(v.Call)
@@ -787,7 +837,10 @@ func main() {
 			e.paths[funcPkg[fn].TypesInfo.Defs[fd.Recv.List[0].Names[0]]] = recv.Obj().Name()
 		}
 		memo = map[string]bool{}
-		e.block(fd.Body)
+		e.fresh()
+		if !e.block(fd.Body) {
+			e.checkLeak(fd.Body.End())
+		}
 	}
 
 	// classes: (location, kind, lock set), de-duplicated; only locations that are written somewhere matter
@@ -881,7 +934,24 @@ func main() {
 		}
 		fmt.Fprintf(&b, "  (%d, %v, [%s])%s\n", locID[c.loc], c.kind == "W", strings.Join(ls, "; "), sep)
 	}
-	b.WriteString("].\n")
+	b.WriteString("].\n\n")
+	// locks that some path leaves held when the function that took them returns (no release, none deferred)
+	b.WriteString("(* locks left held by a return of the function that took them: (lock) -- must be empty *)\n")
+	var lk []string
+	for k := range leaks {
+		lk = append(lk, k)
+	}
+	sort.Strings(lk)
+	var ids []string
+	for _, k := range lk {
+		id, ok := lockID[k]
+		if !ok {
+			id = len(lockNames) + len(ids)
+		}
+		ids = append(ids, fmt.Sprint(id))
+		fmt.Fprintf(&b, "(* %s left held at %s *)\n", k, leaks[k])
+	}
+	fmt.Fprintf(&b, "Definition leaked_locks : list nat := [%s].\n", strings.Join(ids, "; "))
 	if *out != "" {
 		if err := os.WriteFile(*out, []byte(b.String()), 0o644); err != nil {
 			fmt.Fprintln(os.Stderr, err)
